@@ -87,6 +87,34 @@ CLAIMED = {
         technique="SQL macro -> SMT (sqlglot AST, 3VL, char-vector strings, closed-form calendar) per-path VCs "
                   "discharged by z3/cvc5; model conformance against real DuckDB; replay in real DuckDB",
         design_ref="§2 C08"),
+    "C12": dict(
+        level="exploration",
+        text="BOUNDED stand-in (not a proof): contracts on DAGAnalyzer.create_dag, API.semantic_analysis and API.run "
+             "(order of producers/consumers, cycle error 1-3-2-3 and redefinition error 1-2-2 for every written order, "
+             "identical structures and results for every written order) are checked on an exhaustive enumeration of "
+             "scripts of up to 3 (thorough 4) statements x all permutations, and a sample of larger ones, executed on "
+             "the real code; API functions are the tree's own code with only the text->AST prologue removed "
+             "mechanically on every run.",
+        note="Nothing is proved beyond the enumerated shapes (assignments of sums, filter clauses reading scalars of "
+             "other statements, scalar constants; no UDOs/rulesets/joins). The deductive route (loop invariants over "
+             "load_edges/_build_and_sort_graph with networkx contracts) was not built; scripts that are both cyclic "
+             "and redefining are excluded (the property does not say which error wins).",
+        technique="contract predicates checked over bounded exhaustive enumeration on the real code (bounded stand-in)",
+        design_ref="§2 C12"),
+    "C13": dict(
+        level="exploration",
+        text="BOUNDED stand-in (not a proof): the real execute_queries / load_scheduled_datasets / "
+             "cleanup_scheduled_datasets are run against a ghost table store on the schedule the real "
+             "DAGAnalyzer.ds_structure computes, for every dependency graph of up to 3 statements (sampled at 4-5), all "
+             "persistent mixes and both return_only_persistent settings; the load/create/fetch/drop history must keep "
+             "every read dataset live, load inputs once, drop each intermediate exactly once after its last reader and "
+             "return exactly the selected assignments; sampled scripts also run on the real DuckDB through the "
+             "extracted API.run and are compared with an independent evaluation.",
+        note="Loaders and fetch_result are replaced by recording stand-ins on the harness side; DuckDB's catalog is "
+             "assumed to behave like the ghost set; bounded in graph size and statement kinds.",
+        technique="contract predicates over event histories of the real executor on a ghost store; bounded exhaustive "
+                  "enumeration (bounded stand-in)",
+        design_ref="§2 C13"),
 }
 
 NOT_YET = "not built yet in this round; planned per DESIGN.md §2 (no claim until its check exists and is sound)"
